@@ -1,7 +1,7 @@
 (* Driver for the C08 model (Model/ThreadPool.v).
    case:  <nthreads> ; <script of loop 0> | <script of loop 1> ... ; <r>:<ops> <r>:<ops> ... ; t,a t,a ...
    ops:   c f s r  = submit CPU work / fast I/O (fs) / slow I/O (getaddrinfo) / uv_random (CPU kind)
-          x<r>     = uv_cancel(request r), R = uv_run(NOWAIT); "-" = empty script
+          x<r>     = uv_cancel(request r), R = uv_run(NOWAIT), T = uv_stop; "-" = empty script
    the third field gives the operations executed inside the completion callback of request r.
    output: one record per choice, "t:-" (not enabled) or "t:ev.ev.ev", then "v<verdict>". *)
 let zs = string_of_z
@@ -15,6 +15,7 @@ let parse_ops (w : string) : op list =
       | 'f' -> go (i + 1) (OSubmit KFast :: acc)
       | 's' -> go (i + 1) (OSubmit KSlow :: acc)
       | 'R' -> go (i + 1) (ORun :: acc)
+      | 'T' -> go (i + 1) (OStop :: acc)
       | 'x' ->
           let j = ref (i + 1) in
           while !j < n && w.[!j] >= '0' && w.[!j] <= '9' do incr j done;
@@ -25,7 +26,7 @@ let parse_ops (w : string) : op list =
 let sync_str = function
   | SLock -> "L" | SUnlock -> "U"
   | SLockQ l -> "l" ^ string_of_int (int_of_nat l) | SUnlockQ l -> "u" ^ string_of_int (int_of_nat l)
-  | SWait -> "W" | SWake -> "K" | SSignal -> "S" | SPoll -> "P" | SNop -> "N"
+  | SWait -> "W" | SWake -> "K" | SSignal -> "S" | SPoll -> "P" | SNop -> "N" | SStop -> "T"
 let ev_str = function
   | ESync (_, o) -> sync_str o
   | ESubmit (r, _, k) -> "+" ^ string_of_int (int_of_nat r) ^ (match k with KCpu -> "c" | KFast -> "f" | KSlow -> "s")
